@@ -345,9 +345,10 @@ class Engine(object):
             if o.kind == "empty":
                 k = kind_hint or self.contract.local_kinds.get(name)
                 if k is None:
-                    raise OutOfSubset(
-                        "list %r is empty at a havoc point and the contract declares no view for it" % name
-                    )
+                    # no declared view: after the havoc it is a list about which nothing is known (length, elements) -- the
+                    # weakest view there is.  (Raising here made the verdict depend on whether a feasibility query that prunes
+                    # the path happened to time out on a slow machine.)
+                    k = "opaque"
                 if k.startswith("seq"):
                     n, asm = ListObj.fresh("seq", name, {"str": S, "int": I}.get(k[4:], Opaque))
                 else:
